@@ -38,6 +38,45 @@ def frame0_field(f, op):
     return fp
 
 
+def namespace_writers(P, res):
+    # ---- NAMESPACE-WRITERS: :abort keeps the toplevel frame's namespace (it is the session's identity). Who may
+    # re-point a live frame's namespace, and under which guard, is a reviewed table.
+    from .. import sandbox as SB
+    from .. import panicinv as PI
+    NSW = {
+        "eval::eval_toplevel_exprs_then_stop": "Eq(len($.stack.0),1)=T",
+        "json_session::switch_toplevel_namespace": "Gt(len($.stack.0),1)=F",
+        "commands::run_command": None,                       # the explicit `:namespace` command, current frame
+        "run_code_blocks::eval_code_block": None,            # set-up before any evaluation (stack has one frame)
+        "sandboxed_playground::run_sandboxed_playground": None,
+        "reftest_eval_up_to": None,
+        "run_file": None,
+    }
+    PI._PROGRAM = P
+    n_w = 0
+    for pth, ws in sorted(SB.field_stores(P, "namespace", adt="env::StackFrame").items()):
+        g = P.funcs[pth]
+        n_w += 1
+        if pth not in NSW:
+            res.bad("NAMESPACE-WRITERS", "%s # writes StackFrame.namespace" % pth,
+                    "`%s` re-points a live stack frame's namespace; only the reviewed writers may (after :abort the session would "
+                    "continue in a namespace it did not start in)" % pth, g.loc(ws[0][3]))
+            continue
+        want = NSW[pth]
+        if want is None:
+            res.ok("NAMESPACE-WRITERS", "%s: reviewed writer (set-up or explicit command)" % pth)
+            continue
+        fps = [PI.guard_fingerprint(g, bi) for (bi, si, rv, sp) in ws if not g.blocks[bi]["cleanup"]]
+        if any(want in fp for fp in fps) and all((want in fp) or not fp for fp in fps) and any(fp for fp in fps):
+            res.ok("NAMESPACE-WRITERS", "%s: frame 0's namespace is switched only under %s" % (pth, want))
+        else:
+            res.bad("NAMESPACE-WRITERS", "%s # unguarded namespace switch" % pth,
+                    "`%s` switches the toplevel frame's namespace without its `stack.len() == 1` guard (%s): evaluating while stopped "
+                    "inside a call from another file moves the session's toplevel into that file, and :abort keeps it there" % (pth, want),
+                    g.loc(ws[0][3]))
+    res.floor("NAMESPACE-WRITERS", "functions storing StackFrame.namespace", n_w, 5)
+
+
 def run(ctx, res):
     P = ctx.P
     table = json.load(open(os.path.join(VERIF, "tables", "c10_frame_fields.json")))
@@ -147,42 +186,7 @@ def run(ctx, res):
     # ever be installed there
     from . import c06 as _c06
     _c06.block_scope_order(P, res)
-    # ---- NAMESPACE-WRITERS: :abort keeps the toplevel frame's namespace (it is the session's identity). Who may
-    # re-point a live frame's namespace, and under which guard, is a reviewed table.
-    from .. import sandbox as SB
-    from .. import panicinv as PI
-    NSW = {
-        "eval::eval_toplevel_exprs_then_stop": "Eq(len($.stack.0),1)=T",
-        "json_session::switch_toplevel_namespace": "Gt(len($.stack.0),1)=F",
-        "commands::run_command": None,                       # the explicit `:namespace` command, current frame
-        "run_code_blocks::eval_code_block": None,            # set-up before any evaluation (stack has one frame)
-        "sandboxed_playground::run_sandboxed_playground": None,
-        "reftest_eval_up_to": None,
-        "run_file": None,
-    }
-    PI._PROGRAM = P
-    n_w = 0
-    for pth, ws in sorted(SB.field_stores(P, "namespace", adt="env::StackFrame").items()):
-        g = P.funcs[pth]
-        n_w += 1
-        if pth not in NSW:
-            res.bad("NAMESPACE-WRITERS", "%s # writes StackFrame.namespace" % pth,
-                    "`%s` re-points a live stack frame's namespace; only the reviewed writers may (after :abort the session would "
-                    "continue in a namespace it did not start in)" % pth, g.loc(ws[0][3]))
-            continue
-        want = NSW[pth]
-        if want is None:
-            res.ok("NAMESPACE-WRITERS", "%s: reviewed writer (set-up or explicit command)" % pth)
-            continue
-        fps = [PI.guard_fingerprint(g, bi) for (bi, si, rv, sp) in ws if not g.blocks[bi]["cleanup"]]
-        if any(want in fp for fp in fps) and all((want in fp) or not fp for fp in fps) and any(fp for fp in fps):
-            res.ok("NAMESPACE-WRITERS", "%s: frame 0's namespace is switched only under %s" % (pth, want))
-        else:
-            res.bad("NAMESPACE-WRITERS", "%s # unguarded namespace switch" % pth,
-                    "`%s` switches the toplevel frame's namespace without its `stack.len() == 1` guard (%s): evaluating while stopped "
-                    "inside a call from another file moves the session's toplevel into that file, and :abort keeps it there" % (pth, want),
-                    g.loc(ws[0][3]))
-    res.floor("NAMESPACE-WRITERS", "functions storing StackFrame.namespace", n_w, 5)
+    namespace_writers(P, res)
     # ---- NO-EVAL-AFTER-ABORT
     reaches_eval = set()
     E = P.edges()
